@@ -278,11 +278,11 @@ def check(ctx, tree, leaves0, dsl, cfg):
 
 
 def run_shard(ctx):
-    preds = ['none', 'is_tuple'] if ctx.tier == 'quick' else ['none', 'is_tuple', 'custom']
+    preds = ['none', 'is_tuple']
     modes = None
     nss = ['', 'ns'] if ctx.tier == 'quick' else None
     e1.drive(ctx, ctx.tier, lambda tree, leaves, dsl, cfg: check(ctx, tree, leaves, dsl, cfg),
-             profile='tiny', cfgs=e1.configs(ctx.tier, predicates=preds, modes=modes, namespaces=nss))
+             profile='medium', cfgs=e1.configs(ctx.tier, predicates=preds, modes=modes, namespaces=nss))
 
 
 def replay(case, ctx):
